@@ -153,6 +153,20 @@ def pred_c13(T, inp):
     cls2 = {orig(d.nodes[a]): d.nodes[a][ga.PARTITION] for a in d}
     if cls1 != cls2:
         return f"partition classes depend on labeling/order: {cls1} vs {cls2}"
+    # multi-step: a canonicalized graph (it carries classes) is edited - one atom removed, which can make atoms equivalent that
+    # were not - and canonicalized again; the classes must be those of the same molecule canonicalized without that history
+    if n >= 2:
+        for victim in {0, n - 1}:
+            e1 = c.copy()
+            e1.remove_node(victim)
+            e2 = e1.copy()
+            for a in e2:
+                e2.nodes[a][ga.PARTITION] = 0
+            k1, k2 = T.canonicalize(e1), T.canonicalize(e2)
+            m1 = {orig(k1.nodes[a]): k1.nodes[a][ga.PARTITION] for a in k1}
+            m2 = {orig(k2.nodes[a]): k2.nodes[a][ga.PARTITION] for a in k2}
+            if m1 != m2:
+                return f"classes depend on classes left on the graph by an earlier canonicalization (atom {victim} of the canonical graph removed, canonicalized again): {m1} vs {m2} for the same molecule without that history"
     P = {a: c.nodes[a][ga.PARTITION] for a in c}
     for a in c:
         for b in c:
@@ -178,10 +192,14 @@ def pred_c12(T, inp):
     g = build(T, inp["atoms"], inp["edges"], inp.get("perm"), inp.get("order"), inp.get("flips"), inp.get("edge_order"), extra=True, post_relabel=inp.get("post_relabel"))
     snap = (list(g.nodes(data=True)), list(g.edges(data=True)), {u: list(nb) for u, nb in g.adj.items()})
     snap = copy.deepcopy(snap)
+    g.graph["name"] = "molecule under test"   # graph-level data of the molecule (nx.relabel_nodes carries it along)
+    g.graph["source"] = {"file": "none"}
     c = T.canonicalize(g)
     now = (list(g.nodes(data=True)), list(g.edges(data=True)), {u: list(nb) for u, nb in g.adj.items()})
-    if now != snap:
+    if now != snap or g.graph != {"name": "molecule under test", "source": {"file": "none"}}:
         return "canonicalize_molecule modified its argument"
+    if c.graph != g.graph:
+        return f"graph-level data of the molecule lost or changed by canonicalize_molecule: {g.graph!r} became {c.graph!r}"
     n = len(inp["atoms"])
     if sorted(c.nodes) != list(range(n)):
         return f"canonical labels are not 0..n-1: {sorted(c.nodes)}"
@@ -1583,7 +1601,16 @@ def probe_v5(tier, seed):
             continue
         if f"{y:.6f}" != s:
             bad.append(f"fmt6 not idempotent through float(): {x!r} -> {s} -> {y!r} -> {y:.6f}")
-    return {"probe": "V5", "evaluations": evals, "failures": bad[:3], "bound": "random finite doubles incl. raw bit patterns, subnormals, ±0, 1e300"}
+        # FloatIgnoresBlanks (hypothesis of Contracts.C08Coords): float() of a blank-padded field = float() of the token
+        for tok in (s, f"{x:.4f}", repr(x)):
+            pad = " " * rnd.randint(0, 10)
+            try:
+                if struct.pack("<d", float(pad + tok)) != struct.pack("<d", float(tok)) or \
+                        struct.pack("<d", float(tok.rjust(10))) != struct.pack("<d", float(tok)):
+                    bad.append(f"float() does not ignore leading blanks: {pad + tok!r}")
+            except ValueError:
+                bad.append(f"float({pad + tok!r}) raises")
+    return {"probe": "V5", "evaluations": evals, "failures": bad[:3], "bound": "random finite doubles incl. raw bit patterns, subnormals, ±0, 1e300; blank-padded renderings of each (float ignores leading blanks)"}
 
 
 def probe_v6(tier, seed):
